@@ -12,6 +12,7 @@
    because int() of them is <= 0 - the theorems hold for every float64. *)
 From Coq Require Import ZArith List Floats.
 From F2G Require Import Go.GoFloat Model.Fan Model.Limits Proofs.Limits Drv.Limits Proofs.LimitsBridge.
+From F2G Require Drv.LimitsRun.
 Import ListNotations.
 Open Scope Z_scope.
 
@@ -114,6 +115,12 @@ Print Assumptions C13_observer_exact.
 Theorem C13_agreement_implies_holds : forall c, mismatch c = false -> holdsb c = true.
 Proof. exact agreement_implies_holds. Qed.
 Print Assumptions C13_agreement_implies_holds.
+
+(* driver limitsrun (the limits a fan is really started with by DefaultFanController.Run): its
+   observer is exactly the Prop built from start_spec / max_spec / config-wins / the neverStop floor *)
+Theorem C13_run_observer_exact : forall c, Drv.LimitsRun.holdsb c = true <-> Drv.LimitsRun.Holds c.
+Proof. exact Drv.LimitsRun.holdsb_spec. Qed.
+Print Assumptions C13_run_observer_exact.
 
 (* ---- non-vacuity: the hypotheses are met by ordinary curves and the conclusions are specific ---- *)
 Example C13_nonvacuous_curve :
